@@ -403,7 +403,10 @@ def _update_axis(
   sketch_dk = axis_state.eigvecs
   assert sketch_dk.shape == (d, k), (sketch_dk.shape, d, k, update.shape, dim)
 
-  sketch_dk *= axis_state.eigvals[jnp.newaxis, :]
+  # Not in place: eigvecs is a leaf of the caller's state. A state restored
+  # from a checkpoint holds NumPy arrays, which `*=` would modify (or, when
+  # they are read-only, refuse to modify) when update is stepped without jit.
+  sketch_dk = sketch_dk * axis_state.eigvals[jnp.newaxis, :]
   all_but_dim = [i for i in range(update.ndim) if i != dim]
   g_dm = update.transpose([dim] + all_but_dim).reshape(d, -1)
   decay = jnp.sqrt(options.second_moment_decay)
